@@ -175,18 +175,21 @@ impl Wallet {
         sighash_flags: u8,
     ) -> Result<(), ChainGangError> {
         // Check correct input tx provided
-        let prev_hash = tx.inputs[index].prev_output.hash;
+        let prev_output = match tx.inputs.get(index) {
+            Some(input) => input.prev_output.clone(),
+            None => return Err(ChainGangError::BadArgument(format!("input {} out of tx_in range", index))),
+        };
+        let prev_hash = prev_output.hash;
         if prev_hash != tx_in.hash() {
             return Err(ChainGangError::BadArgument(format!("Unable to find input tx {:?}", &prev_hash)));
         }
         // Gather data for sighash
-        let prev_index: usize = tx.inputs[index]
-            .prev_output
-            .index
-            .try_into()
-            .expect("Unable to convert prev_index into usize");
-        let prev_amount = tx_in.outputs[prev_index].satoshis;
-        let prev_lock_script = &tx_in.outputs[prev_index].lock_script;
+        let prev_out = match tx_in.outputs.get(prev_output.index as usize) {
+            Some(output) => output,
+            None => return Err(ChainGangError::BadArgument(format!("output {} out of tx_out range of the input tx", prev_output.index))),
+        };
+        let prev_amount = prev_out.satoshis;
+        let prev_lock_script = &prev_out.lock_script;
 
         let sighash = create_sighash(tx, index, prev_lock_script, prev_amount, sighash_flags)?;
         // Sign sighash
@@ -207,18 +210,21 @@ impl Wallet {
         checksig_index: usize,
     ) -> Result<(), ChainGangError> {
         // Check correct input tx provided
-        let prev_hash = tx.inputs[index].prev_output.hash;
+        let prev_output = match tx.inputs.get(index) {
+            Some(input) => input.prev_output.clone(),
+            None => return Err(ChainGangError::BadArgument(format!("input {} out of tx_in range", index))),
+        };
+        let prev_hash = prev_output.hash;
         if prev_hash != tx_in.hash() {
             return Err(ChainGangError::BadArgument(format!("Unable to find input tx {:?}", &prev_hash)));
         }
         // Gather data for sighash
-        let prev_index: usize = tx.inputs[index]
-            .prev_output
-            .index
-            .try_into()
-            .expect("Unable to convert prev_index into usize");
-        let prev_amount = tx_in.outputs[prev_index].satoshis;
-        let prev_lock_script = &tx_in.outputs[prev_index].lock_script;
+        let prev_out = match tx_in.outputs.get(prev_output.index as usize) {
+            Some(output) => output,
+            None => return Err(ChainGangError::BadArgument(format!("output {} out of tx_out range of the input tx", prev_output.index))),
+        };
+        let prev_amount = prev_out.satoshis;
+        let prev_lock_script = &prev_out.lock_script;
 
         let sighash = create_sighash_checksig_index(
             tx,
